@@ -96,7 +96,7 @@ var valuePool = []string{"alice@example.com", "bob", "", " leading and trailing 
 	"üñîçødé", "日本語", "😀 astral", "x]]>y", "  ", "user@evil.com.victim.com", "CN=Jörg,O=Ex\\,ample", "0", "&amp;already", "<!--not a comment-->",
 	"https://sp.example.com/audience", "a  b", "trailing-newline\n"}
 
-func (g *xgen) value() string { return valuePool[g.r.Intn(len(valuePool))] }
+func (g *xgen) value() string { return freeXML(g.r, valuePool[g.r.Intn(len(valuePool))]) }
 
 type xgen struct {
 	r   *rand.Rand
@@ -109,9 +109,9 @@ func (g *xgen) okAssertionSpec(i int) *AssertionSpec {
 	noa := g.now.Add(time.Duration(1+g.r.Intn(3600)) * time.Second)
 	nb := g.now.Add(-time.Duration(1+g.r.Intn(3600)) * time.Second)
 	a := &AssertionSpec{
-		ID: fmt.Sprintf("_a%d_%d", i, g.r.Intn(1000000)), Issuer: sp(idpIss), NameID: sp(fmt.Sprintf("user%d@example.com", i)),
+		ID: fmt.Sprintf("_a%d_%d", i, g.r.Intn(1000000)), Issuer: sp(idpIss), NameID: sp(freeXML(g.r, fmt.Sprintf("user%d@example.com", i))),
 		Method: bearer, Recipient: acsURL, NOA: renderInstant(g.r, noa), NB: renderInstant(g.r, nb), CondNOA: renderInstant(g.r, noa.Add(time.Minute)),
-		Audiences: [][]string{{audURI}}, SessionIndex: fmt.Sprintf("_s%d", i),
+		Audiences: [][]string{{audURI}}, SessionIndex: freeXML(g.r, fmt.Sprintf("_s%d", i)),
 	}
 	if g.r.Intn(2) == 0 {
 		a.AuthnInstant = g.now.Add(-time.Minute).UTC().Format("2006-01-02T15:04:05Z")
@@ -139,7 +139,7 @@ func (g *xgen) okAssertionSpec(i int) *AssertionSpec {
 }
 
 func (g *xgen) okResponseSpec(n int) *ResponseSpec {
-	rs := &ResponseSpec{ID: fmt.Sprintf("_r%d", g.r.Intn(1000000)), InResponseTo: "_req1", Destination: pick(g.r, acsURL, acsURL, ""), Version: "2.0",
+	rs := &ResponseSpec{ID: freeXML(g.r, fmt.Sprintf("_r%d", g.r.Intn(1000000))), InResponseTo: freeXML(g.r, "_req1"), Destination: pick(g.r, acsURL, acsURL, ""), Version: "2.0",
 		Issuer: sp(idpIss), StatusCode: sp(statusOK), Style: styles[g.r.Intn(len(styles))], Kind: "Response",
 		Pretty: g.r.Intn(4) == 0, XMLDecl: g.r.Intn(3) == 0}
 	for i := 0; i < n; i++ {
